@@ -30,6 +30,9 @@ type netRun struct {
 	// C23, small-limits profile: the scripted peer that announces hash lists, and the node it talks to
 	hashPeer     *chaosPeer
 	hashPeerNode *netNode
+	flood        bool
+	latePeers    int
+	annt         map[*link][]int // ANNT frames of the current step per link: number of hashes
 	// C23
 	lastGetB map[*link]daemon.GetBlocksMessage // last GETB delivered to the owner of the link
 	lastGetT map[*link][]cipher.SHA256
@@ -59,6 +62,17 @@ func runNetwork(c *sim.Ctx) {
 		r.ns.knobs.maxTxnAnnounce = []int{16, 64, 256}[t.Int("small-txn-announce", 3)]
 		c.Knobs["max_out_len"] = int64(r.ns.knobs.maxOutgoingMsgLen)
 		c.Count("mode.small_limits")
+		if t.Chance("flood-profile", 1, 2) {
+			// announcements of more transaction hashes than fit: needs a pool of more than (limit-8)/32 transactions,
+			// hence many spendable outputs.  The chain starts with a few fan-out blocks every node already has, the
+			// limit stays in the lower part of its range and one announcement may carry up to 256 hashes.
+			r.flood = true
+			r.ns.knobs.maxOutgoingMsgLen = minLen + uint64(t.Int("flood-max-out-len", 1400))
+			r.ns.knobs.maxTxnAnnounce = []int{256, 64}[t.Int("flood-txn-announce", 2)]
+			c.Knobs["max_out_len"] = int64(r.ns.knobs.maxOutgoingMsgLen)
+			r.prefund(3 + t.Int("prefund-blocks", 3))
+			c.Count("mode.flood")
+		}
 	}
 	defer r.ns.shutdown()
 	for i, n := range w.nodes {
@@ -286,11 +300,166 @@ func (r *netRun) announceHashes() {
 	}
 }
 
+// prefund: k blocks, each spending one large output into 20, made by the publisher and given to every node
+// before the network exists, so that a few dozen independent transactions can be pending at once later.
+func (r *netRun) prefund(k int) {
+	pub := r.w.nodes[0]
+	for i := 0; i < k; i++ {
+		tx, ok := r.w.mkFanOut(pub.m, 20)
+		if !ok {
+			return
+		}
+		if _, _, err := pub.v.InjectForeignTransaction(cTxn(&tx)); err != nil {
+			return
+		}
+		pub.m.InjectForeign(&tx, pub.m.Cfg.Unconfirmed)
+		r.honestTxn[tx.Hash()] = true
+		time.Sleep(time.Duration(1+r.c.T.Int("prefund-gap", 10)) * time.Second)
+		sb, err := pub.v.CreateAndExecuteBlock()
+		if err != nil {
+			return
+		}
+		mb := mBlock(&sb)
+		if v := pub.m.CheckBlock(&mb); v.V != model.Accept {
+			r.desync = true
+			return
+		}
+		pub.m.Apply(mb)
+		r.pubBlocks[mb.Head.BkSeq] = mb
+		for _, f := range r.w.nodes[1:] {
+			if err := f.v.ExecuteSignedBlock(sb); err != nil {
+				sim.Harnessf("prefund: follower refused publisher block: %v", err)
+			}
+			f.m.Apply(mb)
+		}
+		r.c.Count("block.created")
+	}
+}
+
+// floodPool hands one node many small independent transactions.
+func (r *netRun) floodPool() {
+	c := r.c
+	n := r.hashPeerNode
+	pub := r.nodes[0]
+	used := map[model.Hash]bool{}
+	for _, e := range pub.m.Pool {
+		for _, in := range e.Txn.In {
+			used[in] = true
+		}
+	}
+	want := 20 + c.T.Int("flood-count", 60)
+	made := 0
+	burn := uint64(pub.m.Cfg.Unconfirmed.BurnFactor)
+	for _, id := range r.w.ownedUnspents(pub.m) {
+		if made >= want {
+			break
+		}
+		u := pub.m.Unspent[id]
+		if used[id] || u.Addr == r.w.locked.m {
+			continue
+		}
+		h, ov, inter := model.AccruedHours(u, pub.m.Head().Head.Time)
+		if ov || inter || !h.IsUint64() || h.Uint64() < 2 {
+			continue
+		}
+		fee := (h.Uint64() + burn - 1) / burn
+		tx, ok := r.w.mkSpendOf(pub.m, []model.Hash{id}, h.Uint64()-fee)
+		if !ok {
+			continue
+		}
+		if _, _, err := n.v.InjectForeignTransaction(cTxn(&tx)); err != nil {
+			continue
+		}
+		r.honestTxn[tx.Hash()] = true
+		pub.m.Pool[tx.Hash()] = &model.PoolEntry{Txn: tx, Valid: true}
+		if n != pub {
+			// keep the publisher's shadow pool honest: it only mirrors what the publisher itself holds
+			delete(pub.m.Pool, tx.Hash())
+			used[id] = true
+		}
+		made++
+	}
+	r.ns.pump()
+	c.CountN("probe.flood_txns_injected", int64(made))
+	c.Kind(10, made > 0)
+	c.Logf("flood: %d small transactions handed to n%d", made, n.id)
+}
+
+// latePeer: a new peer connects to the flooded node and introduces itself; the node then announces every valid
+// pending transaction to its peers, in messages of up to MaxTxnAnnounceNum hashes that must each be cut to fit.
+func (r *netRun) latePeer() {
+	c := r.c
+	n := r.hashPeerNode
+	if r.latePeers >= 3 {
+		return
+	}
+	r.latePeers++
+	cp, err := r.ns.newChaos(n, fmt.Sprintf("late%d", r.latePeers), fmt.Sprintf("10.0.9.%d:7000", 1+r.latePeers))
+	if err != nil {
+		return
+	}
+	r.ns.pump()
+	hs, herr := n.v.GetAllValidUnconfirmedTxHashes()
+	r.annt = map[*link][]int{}
+	r.ns.deliver(cp.l, r.ns.introFrame(uint32(0x9100+r.latePeers), 7000, 2, r.w.pubKey.pub, nil), nil)
+	r.ns.pump()
+	burst := r.annt
+	r.annt = nil
+	c.Count("fault.late_peer_introduces")
+	c.Kind(11, true)
+	c.Logf("late peer %s introduces itself to n%d holding %d valid pending transactions", cp.addr, n.id, len(hs))
+	if herr != nil || c.Failed() {
+		return
+	}
+	max := r.ns.knobs.maxOutgoingMsgLen
+	fit := 0
+	if max >= 8 {
+		fit = int((max - 8) / 32)
+	}
+	chunk := r.ns.knobs.maxTxnAnnounce
+	if chunk > 256 {
+		chunk = 256
+	}
+	full := chunk
+	if fit < full {
+		full = fit
+	}
+	for l, lens := range burst {
+		if l.n != n {
+			continue
+		}
+		for i, k := range lens {
+			if i < len(lens)-1 && k != full {
+				kind := "fewer"
+				if k > full {
+					kind = "more"
+				}
+				c.Violate("not-longest-fitting-prefix", "ANNT:"+kind, "node %d announced %d pending transactions to %s in messages of %v hashes; every message but the last must carry min(%d per message, %d that fit %d bytes) = %d", n.id, len(hs), l.remote, lens, chunk, fit, max, full)
+				return
+			}
+		}
+		if len(lens) > 0 {
+			c.Count("probe.annt_burst_checked")
+			if len(hs) > fit && chunk > fit {
+				c.Count("probe.annt_truncated_by_length")
+			}
+		}
+	}
+}
+
 func (r *netRun) step() {
 	c := r.c
 	t := c.T
 	if r.hashPeer != nil && t.Chance("hash-peer-op", 1, 5) {
 		r.announceHashes()
+		return
+	}
+	if r.flood && t.Chance("flood-op", 1, 4) {
+		if t.Bool("flood-or-late-peer") {
+			r.floodPool()
+		} else {
+			r.latePeer()
+		}
 		return
 	}
 	switch t.Pick("net-op", 10, 6, 3, 3, 2, 2) {
@@ -481,6 +650,15 @@ func (r *netRun) monitor(from *netNode, l *link, f []byte) {
 		return
 	}
 	switch p {
+	case "ANNT":
+		if r.annt != nil {
+			var m daemon.AnnounceTxnsMessage
+			if _, err := m.Decode(b); err != nil {
+				c.Violate("malformed-frame-sent", "ANNT", "node %d sent an undecodable ANNT", from.id)
+				return
+			}
+			r.annt[l] = append(r.annt[l], len(m.Transactions))
+		}
 	case "GIVB":
 		var m daemon.GiveBlocksMessage
 		if _, err := m.Decode(b); err != nil {
